@@ -19,7 +19,7 @@ enum OpKind { O_APPEND = 1, O_PREPEND = 2, O_INSERT = 3, O_REMOVE = 4, O_OWNS = 
 // Op fields: d = key index. adds: a = callback id (= slot), b = before slot, c = listener kind. remove/owns: b = slot.
 //            dispatch: a = value seed, c = form (argument value categories / event-included form)
 enum { U_VARIANT = 0 };
-enum { V_COUNT = 13 };
+enum { V_COUNT = 15 };
 
 typedef Tracked<seq::T_PAY, false> Payload;
 typedef std::vector<long> Sig;
@@ -428,6 +428,63 @@ struct Cfg12
 	static int forms() { return 3; }
 };
 
+// cfg13 / cfg14: EventQueue with a getEvent policy that takes its parameters BY VALUE (a std::string and a tracked Payload). enqueue must
+// hand the policy the arguments as lvalues: whatever the policy does with its own copies, the event is stored "with the argument
+// values it had when enqueue was called" - for lvalue, temporary and moved-local arguments alike. cfg13 is the exclude-event form
+// (the leading int is only a base for the key), cfg14 the include-event form (the key is the length of the string argument).
+struct Cfg13
+{
+	typedef int Key;
+	typedef void Proto(std::string, Payload);
+	struct Pol
+	{
+		typedef eventpp::ArgumentPassingExcludeEvent ArgumentPassingMode;
+		static int getEvent(int base, std::string topic, Payload p) { faultPoint(F_CALL); const int k = base + (int)topic.size(); std::string gone(std::move(topic)); Payload stolen(std::move(p)); return k; }
+	};
+	typedef eventpp::EventQueue<Key, Proto, Pol> D;
+	static Key key(int i) { return Cfg9::key(i); }
+	typedef Cfg9::K0 K0; typedef Cfg9::K1 K1; typedef Cfg9::K2 K2;
+	static std::function<Proto> make(int kind, int cb) { return Cfg9::make(kind, cb); }
+	static void dispatch(D & d, int ki, int v, int form)
+	{
+		std::string topic = strOf(v);
+		Payload p(2000, v * 5 + 2);
+		const int base = key(ki) - (int)topic.size();
+		if(form == 0) d.enqueue(base, topic, p);
+		else if(form == 1) d.enqueue(base, strOf(v), Payload(2000, v * 5 + 2));
+		else d.enqueue(base, std::move(topic), std::move(p));
+		d.process();
+	}
+	static Sig expected(int, int v, int) { Sig g; g.push_back(H(strOf(v))); g.push_back(v * 5 + 2); return g; }
+	static int forms() { return 3; }
+};
+struct Cfg14
+{
+	typedef int Key;
+	typedef void Proto(std::string, Payload);
+	struct Pol
+	{
+		typedef eventpp::ArgumentPassingIncludeEvent ArgumentPassingMode;
+		static int getEvent(std::string topic, Payload p) { faultPoint(F_CALL); const int k = (int)topic.size(); std::string gone(std::move(topic)); Payload stolen(std::move(p)); return k; }
+	};
+	typedef eventpp::EventQueue<Key, Proto, Pol> D;
+	static Key key(int i) { return 60 + (i & 3); }
+	static std::string topicOf(int ki, int v) { std::string t = strOf(v); t.resize((size_t)key(ki), 'p'); return t; }
+	typedef Cfg9::K0 K0; typedef Cfg9::K1 K1; typedef Cfg9::K2 K2;
+	static std::function<Proto> make(int kind, int cb) { return Cfg9::make(kind, cb); }
+	static void dispatch(D & d, int ki, int v, int form)
+	{
+		std::string topic = topicOf(ki, v);
+		Payload p(2000, v * 5 + 2);
+		if(form == 0) d.enqueue(topic, p);
+		else if(form == 1) d.enqueue(topicOf(ki, v), Payload(2000, v * 5 + 2));
+		else d.enqueue(std::move(topic), std::move(p));
+		d.process();
+	}
+	static Sig expected(int ki, int v, int) { Sig g; g.push_back(H(topicOf(ki, v))); g.push_back(v * 5 + 2); return g; }
+	static int forms() { return 3; }
+};
+
 // ---------------------------------------------------------------- interpreter
 struct MItem { int cb; };
 
@@ -707,6 +764,10 @@ void runVariant10(const Plan & p, RunOut & o) { runCfg<Cfg10>(p, o); }
 void runVariant11(const Plan & p, RunOut & o) { runCfg<Cfg11>(p, o); }
 #elif SEQ_VARIANT == 12
 void runVariant12(const Plan & p, RunOut & o) { runCfg<Cfg12>(p, o); }
+#elif SEQ_VARIANT == 13
+void runVariant13(const Plan & p, RunOut & o) { runCfg<Cfg13>(p, o); }
+#elif SEQ_VARIANT == 14
+void runVariant14(const Plan & p, RunOut & o) { runCfg<Cfg14>(p, o); }
 #endif
 
 } // namespace sd
@@ -718,7 +779,7 @@ Sink * g_sink = nullptr;
 Counters counters;
 void runVariant0(const Plan &, RunOut &); void runVariant1(const Plan &, RunOut &); void runVariant2(const Plan &, RunOut &);
 void runVariant3(const Plan &, RunOut &); void runVariant4(const Plan &, RunOut &); void runVariant5(const Plan &, RunOut &);
-void runVariant6(const Plan &, RunOut &); void runVariant7(const Plan &, RunOut &); void runVariant8(const Plan &, RunOut &); void runVariant9(const Plan &, RunOut &); void runVariant10(const Plan &, RunOut &); void runVariant11(const Plan &, RunOut &); void runVariant12(const Plan &, RunOut &);
+void runVariant6(const Plan &, RunOut &); void runVariant7(const Plan &, RunOut &); void runVariant8(const Plan &, RunOut &); void runVariant9(const Plan &, RunOut &); void runVariant10(const Plan &, RunOut &); void runVariant11(const Plan &, RunOut &); void runVariant12(const Plan &, RunOut &); void runVariant13(const Plan &, RunOut &); void runVariant14(const Plan &, RunOut &);
 }
 
 namespace engine {
@@ -733,7 +794,9 @@ void generate(uint64_t seed, Plan & plan)
 	using namespace sd;
 	Rng rng(seed);
 	plan.setSchedSeed(rng.next());
-	plan.user(U_VARIANT) = (int)rng.below(V_COUNT);
+	// mode c05q: the EventQueue instantiations only (the queue engine proper uses int keys and the default getEvent)
+	static const int queueCfgs[] = { 10, 13, 14 };
+	plan.user(U_VARIANT) = mode == "c05q" ? queueCfgs[rng.below(3)] : (int)rng.below(V_COUNT);
 	plan.tasks.assign(1, OpList());
 	OpList & ops = plan.tasks[0];
 	const int len = mode == "c09" ? 4 + (int)rng.below(8) : 8 + (int)rng.below(28);
@@ -765,7 +828,7 @@ void execute(const Plan & plan, RunOut & out)
 	switch(v) {
 	case 0: sd::runVariant0(plan, out); break; case 1: sd::runVariant1(plan, out); break; case 2: sd::runVariant2(plan, out); break;
 	case 3: sd::runVariant3(plan, out); break; case 4: sd::runVariant4(plan, out); break; case 5: sd::runVariant5(plan, out); break;
-	case 7: sd::runVariant7(plan, out); break; case 8: sd::runVariant8(plan, out); break; case 9: sd::runVariant9(plan, out); break; case 10: sd::runVariant10(plan, out); break; case 11: sd::runVariant11(plan, out); break; case 12: sd::runVariant12(plan, out); break;
+	case 7: sd::runVariant7(plan, out); break; case 8: sd::runVariant8(plan, out); break; case 9: sd::runVariant9(plan, out); break; case 10: sd::runVariant10(plan, out); break; case 11: sd::runVariant11(plan, out); break; case 12: sd::runVariant12(plan, out); break; case 13: sd::runVariant13(plan, out); break; case 14: sd::runVariant14(plan, out); break;
 	default: sd::runVariant6(plan, out); break;
 	}
 	++sd::counters.plans;
@@ -783,7 +846,9 @@ std::string describe(const Plan & plan)
 		"int key/ExcludeEvent/getEvent policy reading a trailing by-value std::string argument",
 		"EventQueue, string key BY VALUE/void(string,Payload)/IncludeEvent: enqueue + process",
 		"string key/getEvent policy returning a reference to its second argument",
-		"non-owning key referring to the string it was made from/void(string,Payload)/IncludeEvent" };
+		"non-owning key referring to the string it was made from/void(string,Payload)/IncludeEvent",
+		"EventQueue, int key/ExcludeEvent/getEvent policy taking string and Payload BY VALUE: enqueue + process",
+		"EventQueue, int key/IncludeEvent/getEvent policy taking string and Payload BY VALUE: enqueue + process" };
 	static const char * names[] = { "?", "append", "prepend", "insert", "remove", "ownsHandle", "hasAny", "forEach", "dispatch" };
 	std::ostringstream o;
 	const int v = plan.user(sd::U_VARIANT);
